@@ -288,7 +288,8 @@ def rule_metric_arith(ctx: Ctx) -> None:
         bad = []
         for a in ast.walk(ev):
             if isinstance(a, ast.Assign) and len(a.targets) == 1 and norm(a.targets[0]) == cv:
-                v = a.value
+                from ..core import expand as _expand
+                v = _expand(ev, a.value)       # the queried node list may have been given a name before its length is taken
                 if isinstance(v, ast.Constant):
                     if v.value != 0:
                         bad.append((a, f"the count starts / defaults to {v.value!r} instead of 0"))
